@@ -5,6 +5,7 @@ import (
 	"fmt"
 	"sort"
 	"strings"
+	"sync"
 	"testing"
 	"time"
 
@@ -37,7 +38,7 @@ func TestC14svc(t *testing.T) {
 	col := evd.New("C14", cfg)
 	defer col.Flush()
 	n := cfg.N(48, 1200)
-	var checks, expired, keptAlive, svcFaults int64
+	var checks, expired, keptAlive, svcFaults, waitersEnded int64
 	for i := 0; i < n; i++ {
 		seed := cfg.CaseSeed("C14svc", i)
 		if !cfg.Want(i, seed) {
@@ -96,6 +97,34 @@ func TestC14svc(t *testing.T) {
 				}
 				subs = append(subs, s)
 			}
+			// one more subscription has a TTL shorter than a pull is prepared to wait
+			// (59 s): a pull that waits on it restarts the clock when it starts, then the
+			// TTL runs out under it and the service removes the subscription. From then
+			// on it "behaves as deleted" - also for the pull that is still waiting
+			type waitRes struct {
+				err  error
+				n    int
+				at   time.Time
+				done bool
+			}
+			var wmu sync.Mutex
+			var wres waitRes
+			wname := "projects/p/subscriptions/waited-on"
+			withWaiter := r.Intn(2) == 0
+			var wStart time.Time
+			if withWaiter {
+				mkSub(e, &pubsubpb.Subscription{Name: wname, Topic: topic, ExpirationPolicy: &pubsubpb.ExpirationPolicy{Ttl: durationpb.New(15 * time.Second)}})
+				wStart = time.Now()
+				go func() {
+					resp, err := e.Sub.Pull(e.Actor("waiter"), &pubsubpb.PullRequest{Subscription: wname, MaxMessages: 1})
+					wmu.Lock()
+					wres = waitRes{err: err, at: time.Now(), done: true}
+					if resp != nil {
+						wres.n = len(resp.ReceivedMessages)
+					}
+					wmu.Unlock()
+				}()
+			}
 			allowance := time.Duration(k+2)*(set.Interval+set.Fuzz) + 5*time.Second
 			// in a third of the cases one statement of the service fails at some point
 			// (a storage error): that sweep is lost, the service carries on
@@ -109,6 +138,8 @@ func TestC14svc(t *testing.T) {
 				col.Violation("service:"+sig, fmt.Sprintf("[interval=%v batch=%d, %d subscriptions] ", set.Interval, set.MaxDelete, k)+fmt.Sprintf(f, a...),
 					map[string]any{"case_seed": seed, "settings": fmt.Sprintf("%+v", set)})
 			}
+			waiterJudged := false
+			var goneSince time.Time
 			step := 7 * time.Second
 			horizon := time.Now().Add(35 * time.Minute)
 			for time.Now().Before(horizon) {
@@ -120,6 +151,29 @@ func TestC14svc(t *testing.T) {
 				time.Sleep(step)
 				rig.Quiesce()
 				now := time.Now()
+				if withWaiter && !waiterJudged {
+					_, gerr := e.Sub.GetSubscription(e.Ctx, &pubsubpb.GetSubscriptionRequest{Subscription: wname})
+					wmu.Lock()
+					wr := wres
+					wmu.Unlock()
+					switch {
+					case wr.done && wr.err == nil && wr.at.Sub(wStart) > 50*time.Second:
+						// it waited its full minute: by then the subscription had been gone for a
+						// long time (TTL 15 s, sweeps every 5-20 s), and nobody told it
+						viol("waiting-pull-outlived-its-subscription", "a pull that was waiting on %s (TTL 15 s) when the expiry service removed it returned OK with %d message(s) %v after it started, instead of ending with NotFound", wname, wr.n, wr.at.Sub(wStart))
+						waiterJudged = true
+					case wr.done:
+						waiterJudged = true
+						if status.Code(wr.err) == codes.NotFound {
+							waitersEnded++
+						}
+					case status.Code(gerr) == codes.NotFound && goneSince.IsZero():
+						goneSince = now
+					case !goneSince.IsZero() && now.Sub(goneSince) > 20*time.Second:
+						viol("waiting-pull-outlived-its-subscription", "%s has been gone for %v and the pull that was waiting on it is still waiting", wname, now.Sub(goneSince))
+						waiterJudged = true
+					}
+				}
 				for _, s := range subs {
 					if s.gone {
 						continue
@@ -184,6 +238,7 @@ func TestC14svc(t *testing.T) {
 		})
 	}
 	col.Add("ev_liveness_checks", checks)
+	col.Add("ev_waiting_pulls_ended_with_notfound_when_their_subscription_expired", waitersEnded)
 	col.Add("ev_storage_errors_injected_into_the_service", svcFaults)
 	col.Add("ev_subscriptions_expired_by_the_service", expired)
 	col.Add("ev_empty_pulls_that_restarted_the_clock", keptAlive)
